@@ -111,6 +111,21 @@ func (c *Ctx) lexRun() map[string]*simpleVerdict {
 				}
 			}
 		}
+		// a sign is a symbol in expressions but part of the number generically
+		if kind == "expression" {
+			seqs = append(seqs,
+				seq{"-3", []lexItem{{"-", "Symbol", "s"}, {"3", "Integer", "n"}}},
+				seq{"-.5", []lexItem{{"-", "Symbol", "s"}, {".5", "Float", "n"}}},
+				seq{"a-3", []lexItem{{"a", "Word", "w"}, {"-", "Symbol", "s"}, {"3", "Integer", "n"}}},
+				seq{"2-1.5e3", []lexItem{{"2", "Integer", "n"}, {"-", "Symbol", "s"}, {"1.5e3", "Float", "n"}}},
+				seq{"+7", []lexItem{{"+", "Symbol", "s"}, {"7", "Integer", "n"}}})
+		} else {
+			seqs = append(seqs,
+				seq{"-3", []lexItem{{"-3", "Integer", "n"}}},
+				seq{"-.5", []lexItem{{"-.5", "Float", "n"}}},
+				seq{"a -3", []lexItem{{"a", "Word", "w"}, {" ", "Whitespace", " "}, {"-3", "Integer", "n"}}},
+				seq{"(-1.5)", []lexItem{{"(", "Symbol", "s"}, {"-1.5", "Float", "n"}, {")", "Symbol", "s"}}})
+		}
 		if kind == "generic" {
 			for _, a := range pool {
 				seqs = append(seqs, seq{a.text + " # c", []lexItem{a, {" ", "Whitespace", " "}, {"# c", "Comment", "c"}}})
